@@ -16,6 +16,7 @@ open MythVerif.Wsq
 def ownerLocked : OPc → Bool
   | .po4 _ | .po5 _ _ | .po5b _ _ | .po6 _ | .po7 | .po8 | .po9 => true
   | .stuckL | .pt1 _ | .pt6 _ | .pt7 _ _ | .pt8 _ _ | .pt9 => true
+  | .stuck | .pub _ | .pum _ _ | .pus _ _ | .puv _ _ | .pux _ _ | .pt2 _ | .pt3 _ _ | .pt4 _ _ | .pt5 _ _ => true
   | _ => false
 
 def thiefLocked : TPc → Bool
@@ -26,7 +27,7 @@ def thiefLocked : TPc → Bool
 /-- the owner is between operations or at the start of one: its buffer may still hold the
     stores of the last push -/
 def carry : OPc → Bool
-  | .idle | .stuck | .pu0 _ | .pu0f _ _ | .pq | .po1 | .ptl _ => true
+  | .idle | .pu0 _ | .pu0f _ _ | .pq | .po1 | .ptl _ => true
   | _ => false
 
 /-- program counters at which a thief / passer may have buffered stores -/
@@ -40,9 +41,12 @@ def notTrans : TPc → Bool
   | .tp1 _ | .tp1b _ | .tp2 _ _ | .tp3 _ | .tp4 _ => true
   | _ => false
 
-/-- the reset path: memory `top` / `base` lag behind the ghosts until the unlock fence -/
+/-- the reset path and the part of a locked section that follows a re-centring `memmove`: memory
+    `top` / `base` lag behind the ghosts until the buffer has drained (at the latest at the unlock
+    fence); the memory-side window is complete there (nobody else may look) -/
 def resetting : OPc → Bool
   | .po8 | .po9 => true
+  | .pus _ _ | .puv _ _ | .pux _ _ | .pt4 _ _ | .pt5 _ _ | .pt6 _ | .pt7 _ _ | .pt8 _ _ | .pt9 => true
   | _ => false
 
 def ownerFlight : OPc → Bool
@@ -85,6 +89,29 @@ def InsShape (buf : List Sto) (ptr : Int → Option Elem) (lb : Int) : Prop :=
   (∃ e, buf = [.ptr (lb - 1) (some e), .baseI (lb - 1) e]) ∨
   (∃ e, buf = [.baseI (lb - 1) e] ∧ ptr (lb - 1) = some e) ∨ buf = []
 
+/-- after the `memmove` of a re-centring: the shift entry is buffered (`sh` = its offset, memory
+    and ghosts still at the old place) or drained (ghosts moved, memory `top` / `base` lag by `off`) -/
+def Rc1Shape (buf : List Sto) (top base lb lt sh off : Int) : Prop :=
+  (buf = [.shift lb lt off] ∧ sh = off ∧ top = lt ∧ base = lb) ∨
+  (buf = [] ∧ sh = 0 ∧ top = lt - off ∧ base = lb - off)
+
+/-- after `q->top += offset` -/
+def Rc2Shape (buf : List Sto) (top base lb lt sh off : Int) : Prop :=
+  (buf = [.shift lb lt off, .top (lt + off)] ∧ sh = off ∧ base = lb) ∨
+  (buf = [.top lt] ∧ sh = 0 ∧ base = lb - off) ∨
+  (buf = [] ∧ sh = 0 ∧ top = lt ∧ base = lb - off)
+
+/-- after `q->base += offset`: what is left of the three entries of a re-centring, followed by the
+    stores `suf` issued since (`lb + sh`, `lt + sh` are the owner's view of `base`, `top`) -/
+def RcPre (buf suf : List Sto) (top lb lt sh : Int) : Prop :=
+  buf = .shift lb lt sh :: .top (lt + sh) :: .base (lb + sh) :: suf ∨
+  (buf = .top lt :: .base lb :: suf ∧ sh = 0) ∨
+  (buf = .base lb :: suf ∧ sh = 0 ∧ top = lt)
+
+/-- a re-centring (if any) in the buffer or completely drained, nothing issued since -/
+def RcShape (buf : List Sto) (top base lb lt sh : Int) : Prop :=
+  RcPre buf [] top lb lt sh ∨ (buf = [] ∧ sh = 0 ∧ top = lt ∧ base = lb)
+
 /-- a thief's increment of `base` is buffered (not visible: `tr = false`) or drained (`tr = true`) -/
 def TkfShape (buf : List Sto) (tr : Bool) (b : Int) : Prop :=
   (buf = [.base (b + 1)] ∧ tr = false) ∨ (buf = [] ∧ tr = true)
@@ -99,7 +126,8 @@ structure Inv (s : St) : Prop where
   lockT : ∀ p, s.lock = .thief p ↔ thiefLocked (s.tpc p) = true
   len   : (s.A.length : Int) = s.lt - s.lb
   /-- memory-side window: what a thief may read (indices below the memory value of `top`) -/
-  mwin  : ∀ k : Nat, k < s.A.length → s.lb + k < s.top → s.ptr (s.lb + k) = s.A[k]?
+  mwin  : ∀ k : Nat, k < s.A.length → (s.lb + k < s.top ∨ resetting s.opc = true) → s.ptr (s.lb + k) = s.A[k]?
+  shz   : resetting s.opc = false → s.sh = 0
   mtop  : resetting s.opc = false → s.top ≤ s.lt
   lbase : resetting s.opc = false → s.base = s.lb + (if s.tr = true then 1 else 0)
   trn   : s.tr = true → ∃ p, s.lock = .thief p
@@ -109,6 +137,13 @@ structure Inv (s : St) : Prop where
   -- owner
   carryC : carry s.opc = true → CarryShape s.bufO s.top s.lt s.ptr s.A
   pu0f  : ∀ e t, s.opc = .pu0f e t → t = s.lt
+  stuck : s.opc = .stuck → s.bufO = [] ∧ s.top = s.lt ∧ s.lt = s.size ∧ s.lb = 0
+  pul   : ∀ e, s.opc = .pul e → s.bufO = [] ∧ s.top = s.lt ∧ s.lt = s.size
+  pub   : ∀ e, s.opc = .pub e → s.bufO = [] ∧ s.top = s.lt ∧ s.lt = s.size
+  pum   : ∀ e off, s.opc = .pum e off → s.bufO = [] ∧ s.top = s.lt
+  pus   : ∀ e off, s.opc = .pus e off → Rc1Shape s.bufO s.top s.base s.lb s.lt s.sh off
+  puv   : ∀ e off, s.opc = .puv e off → Rc2Shape s.bufO s.top s.base s.lb s.lt s.sh off
+  pux   : ∀ e t, s.opc = .pux e t → t = s.lt + s.sh ∧ RcShape s.bufO s.top s.base s.lb s.lt s.sh
   pu1   : ∀ e t, s.opc = .pu1 e t → s.bufO = [] ∧ s.top = s.lt ∧ t = s.lt
   pu2   : ∀ e t, s.opc = .pu2 e t → t = s.lt ∧ s.top = s.lt ∧ Pu2Shape s.bufO s.ptr e t
   pof   : ∀ t, s.opc = .pof t → s.lt = t + 1 ∧ PofShape s.bufO s.top s.ptr s.A t
@@ -120,14 +155,22 @@ structure Inv (s : St) : Prop where
   po5b  : ∀ t r, s.opc = .po5b t r → s.bufO = [] ∧ s.top = t ∧ s.lt = t ∧ r = s.flO
   po6   : ∀ r, s.opc = .po6 r → r = s.flO ∧ s.top = s.lt ∧ Po6Shape s.bufO s.lt
   po7   : s.opc = .po7 → s.bufO = [] ∧ s.lt = s.lb ∧ s.top = s.lt - 1
-  po8   : s.opc = .po8 → s.lt = s.lb ∧ s.lb = s.size / 2 ∧ Po8Shape s.bufO s.top (s.size / 2)
-  po9   : s.opc = .po9 → s.lt = s.lb ∧ s.lb = s.size / 2 ∧ Po9Shape s.bufO s.top s.base (s.size / 2)
-  stuckL : s.opc = .stuckL → s.bufO = [] ∧ s.top = s.lt
+  po8   : s.opc = .po8 → s.lt = s.lb ∧ s.lb = s.size / 2 ∧ s.sh = 0 ∧ Po8Shape s.bufO s.top (s.size / 2)
+  po9   : s.opc = .po9 → s.lt = s.lb ∧ s.lb = s.size / 2 ∧ s.sh = 0 ∧ Po9Shape s.bufO s.top s.base (s.size / 2)
+  stuckL : s.opc = .stuckL → s.bufO = [] ∧ s.top = s.lt ∧ s.lb = 0 ∧ s.lt = s.size
   pt1   : ∀ e, s.opc = .pt1 e → s.bufO = [] ∧ s.top = s.lt
-  pt6   : ∀ e, s.opc = .pt6 e → s.bufO = [] ∧ s.top = s.lt
-  pt7   : ∀ e b, s.opc = .pt7 e b → s.bufO = [] ∧ s.top = s.lt ∧ b = s.lb
-  pt8   : ∀ e b, s.opc = .pt8 e b → s.top = s.lt ∧ b = s.lb ∧ Pu2Shape s.bufO s.ptr e (b - 1)
-  pt9   : s.opc = .pt9 → s.top = s.lt ∧ InsShape s.bufO s.ptr s.lb
+  pt2   : ∀ e, s.opc = .pt2 e → s.bufO = [] ∧ s.top = s.lt ∧ s.lb = 0
+  pt3   : ∀ e off, s.opc = .pt3 e off → s.bufO = [] ∧ s.top = s.lt
+  pt4   : ∀ e off, s.opc = .pt4 e off → Rc1Shape s.bufO s.top s.base s.lb s.lt s.sh off
+  pt5   : ∀ e off, s.opc = .pt5 e off → Rc2Shape s.bufO s.top s.base s.lb s.lt s.sh off
+  pt6   : ∀ e, s.opc = .pt6 e → RcShape s.bufO s.top s.base s.lb s.lt s.sh
+  pt7   : ∀ e b, s.opc = .pt7 e b → b = s.lb + s.sh ∧ RcShape s.bufO s.top s.base s.lb s.lt s.sh
+  pt8   : ∀ e b, s.opc = .pt8 e b → b = s.lb + s.sh ∧
+            (RcPre s.bufO [.ptr (b - 1) (some e)] s.top s.lb s.lt s.sh ∨
+             (s.sh = 0 ∧ s.top = s.lt ∧ s.base = s.lb ∧ Pu2Shape s.bufO s.ptr e (b - 1)))
+  pt9   : s.opc = .pt9 →
+            (∃ e, RcPre s.bufO [.ptr (s.lb + s.sh - 1) (some e), .baseI (s.lb + s.sh - 1) e] s.top s.lb s.lt s.sh) ∨
+            (s.sh = 0 ∧ s.top = s.lt ∧ s.base = s.lb ∧ InsShape s.bufO s.ptr s.lb)
   -- thieves
   tbufE : ∀ p, mayBuf (s.tpc p) = false → s.bufT p = []
   tkf   : ∀ p b, s.tpc p = .tkf b → s.lb = b ∧ TkfShape (s.bufT p) s.tr b
